@@ -91,9 +91,9 @@ def c_interface_pointers():
     return names
 
 
-def prepare():
+def prepare(configs=CONFIGS):
     """lower every TU of every configuration once (in the parent; the forked obligations inherit the parsed modules)"""
-    for cfg in CONFIGS:
+    for cfg in configs:
         ent = {"mods": [], "scan": [], "error": None}
         _PREP[cfg] = ent
         try:
@@ -512,6 +512,15 @@ def ob_symbols(cfg):
 
 
 # ==========================================================================================================================
+def include_in(chk):
+    """statelessness is a premise of every per-call obligation of the other checks (each symbolic run starts from the load-time values of the
+    globals and assumes that a call leaves nothing behind): the IR obligations for the shipped configuration, registered inside those checks"""
+    prepare(("A",))
+    chk.add("ir:A:constructs", ob_constructs, "A")
+    chk.add("ir:A:global-write-freedom", ob_writes, "A")
+    chk.add("init:A:static-initialisers", ob_init, "A")
+
+
 def main(argv=None):
     chk = Check("C20", "other", argv)
     prepare()
